@@ -391,3 +391,56 @@ Definition hstep (st : sys * store) (o : hop) : sys * store :=
   end.
 
 Definition hrun (ops : list hop) (st : sys * store) : sys * store := fold_left hstep ops st.
+
+(** * Round 8 (O): runtime clients behind the query log's finder *)
+(** home.clientOrArtificial: the PERSISTENT clients first (Storage.FindLoose),
+    then the runtime index (rDNS, WHOIS, ARP, hosts file, DHCP host names:
+    Storage.ClientRuntime, keyed by address; such a record carries no ignore
+    flag and counts as a result), else an artificial record.  [rt a]: the
+    runtime index has a record for [a]. *)
+Inductive found := FPersistent (c : client) | FRuntime | FArtificial.
+
+Definition client_or_artificial (ix : index) dhcp (rt : addr -> bool) (i : id) : found :=
+  match (match find_loose ix dhcp i with Some u => deref ix u | None => None end) with
+  | Some c => FPersistent c
+  | None =>
+      match i with
+      | IdAddr a => if rt a then FRuntime else FArtificial
+      | IdCid _ _ => FArtificial        (* netip.ParseAddr fails: ClientRuntime of the zero address *)
+      end
+  end.
+
+(** home.findMultiple as far as IgnoreQueryLog goes: the first id that is not
+    artificial decides. *)
+Fixpoint find_multiple (ix : index) dhcp (rt : addr -> bool) (ids : list id) : bool :=
+  match ids with
+  | [] => false
+  | i :: rest =>
+      match client_or_artificial ix dhcp rt i with
+      | FPersistent c => c_ignore_qlog c
+      | FRuntime => false
+      | FArtificial => find_multiple ix dhcp rt rest
+      end
+  end.
+
+(** * Round 8 (P): the configuration of the statistics *)
+(** StatsCtx.enabled and the list behind StatsCtx.ignored.
+    PUT /control/stats/config/update applies ALL members of the request. *)
+Record sconf := { sc_enabled : bool; sc_ignored : list bytes }.
+Definition sconf_put (enabled : bool) (ignored : list bytes) (c : sconf) : sconf :=
+  {| sc_enabled := enabled; sc_ignored := ignored |}.
+Definition sconf_run (puts : list (bool * list bytes)) (c : sconf) : sconf :=
+  fold_left (fun c p => sconf_put (fst p) (snd p) c) puts c.
+
+(** StatsCtx.Update returns at once while the statistics are disabled. *)
+Definition process_gated (stats_on : bool) (ev : env) (q : query) (st : store) : store :=
+  let st' := process ev q st in
+  if stats_on then st' else
+  {| st_mem := st_mem st'; st_file := st_file st'; st_has_file := st_has_file st'; st_old := st_old st';
+     st_stats := st_stats st; st_units := st_units st |}.
+
+Definition hstep_gated (stats_on : bool) (st : sys * store) (o : hop) : sys * store :=
+  match o with
+  | HQuery w q => (fst st, process_gated stats_on (env_at (fst st) w) q (snd st))
+  | _ => hstep st o
+  end.
